@@ -255,6 +255,32 @@ func checkC07(c *Ctx) {
 			return true
 		})
 	}
+	// a registration function that delegates to another registration function writes what that one writes
+	// (scRegisterType → scRegisterTypeFac today; scDefVar → scRegisterVarFac after a clean-up)
+	for round := 0; round < len(scopeTableWriters); round++ {
+		for w := range scopeTableWriters {
+			fn, ok := f.Prog.ByName[w]
+			if !ok {
+				continue
+			}
+			ir.Walk(f.N.Func(fn), func(t ir.Term) bool {
+				if app, ok := t.(*ir.App); ok {
+					if fr, ok := app.Fun.(*ir.FuncRef); ok && strings.HasPrefix(fr.Key, f.Path+".") {
+						callee := strings.TrimPrefix(fr.Key, f.Path+".")
+						if _, reg := scopeTableWriters[callee]; reg && callee != w {
+							for k := range tableWrites[callee] {
+								if tableWrites[w] == nil {
+									tableWrites[w] = map[string]bool{}
+								}
+								tableWrites[w][k] = true
+							}
+						}
+					}
+				}
+				return true
+			})
+		}
+	}
 	for _, w := range sortedKeys(scopeTableWriters) {
 		have := sortedKeysB(tableWrites[w])
 		want := append([]string{}, scopeTableWriters[w]...)
